@@ -9080,6 +9080,11 @@ func (c *BytecodeCompiler) emitCall(callInfo *vm.CallSiteInfo, location *positio
 }
 
 func (c *BytecodeCompiler) compileCallMethod(receiverType types.Type, name value.Symbol, argCount int, loc *position.Location, tailCall bool) {
+	if c.isGenerator {
+		// the last value of a generator body is yielded: its frame cannot be replaced by the callee's
+		tailCall = false
+	}
+
 	var fallback bool
 	var exact bool
 
